@@ -17,6 +17,7 @@ HOSTS = []       # dict(crate, file, mod, src, [pub])
 EXTRA_WEAVE = []
 OBLIGATIONS = []
 PROPERTY_META = {}
+CRATE_ARGS = {}   # extra cargo arguments per crate (feature selection)
 
 
 def host(crate, file, mod, src, pub=False):
@@ -259,6 +260,12 @@ _c09 = [("knight", "knight_moves", "knight_att(pos)"), ("king", "king_moves", "k
 for n, fn, c in _c09:
     ob("C09." + n, ["C09"], "chess-lookup", "kani_verif_lookup::c09_%s_contract" % n, kind="complete", flags="safety", timeout=900, mem_gb=6,
        functions=["chess_lookup::" + fn], packaging=(_HS if n == "line" else _ATTR), contract="%s == %s, no wrap-around (spec walks (file,rank) pairs)" % (fn, c))
+host("chess-lookup-generator", "chess-lookup-generator/src/lib.rs", "verif_geom", "spec/geom.rs", pub=True)
+host("chess-lookup-generator", "chess-lookup-generator/src/lib.rs", "kani_verif_gen", "harness/chess-lookup-generator/gen.rs")
+CRATE_ARGS["chess-lookup-generator"] = ["--no-default-features"]
+for _n, _f in (("rays", ["chess_lookup_generator::rook_rays", "chess_lookup_generator::bishop_rays"]), ("leapers", ["chess_lookup_generator::knight_moves", "chess_lookup_generator::king_moves"]), ("pawns", ["chess_lookup_generator::pawn_attacks", "chess_lookup_generator::pawn_quiets"])):
+    ob("C09.gen." + _n, ["C09"], "chess-lookup-generator", "kani_verif_gen::c09_gen_" + _n, kind="complete", flags="safety", timeout=900, mem_gb=3, functions=_f,
+       contract="the generator's per-square function equals the same geometric definition the checked-in table is proved equal to (all 64 squares, both colours): table == generator")
 ob("C09.constants", "C09", "chess-lookup", "kani_verif_lookup::c09_constants", kind="complete", flags="safety", timeout=900, mem_gb=6,
    functions=["PAWN_DOUBLE_SOURCE", "PAWN_DOUBLE_DEST", "BACKRANK", "BACKRANK_BB", "CASTLE_MOVES", "PAWN_DOUBLE_MOVE", "ROOK_CASTLE_QUEENSIDE", "ROOK_CASTLE_KINGSIDE", "CASTLE_ROOK_START", "CASTLE_ROOK_END", "PROMOTION_RANK", "PAWN_DOUBLE_MOVE_SOURCE_RANK", "PAWN_DOUBLE_MOVE_DEST_RANK", "ADJACENT_FILES", "ADJACENT_RANKS", "KINGSIDE_CASTLE_FILES", "QUEENSIDE_CASTLE_FILES", "KINGSIDE_CASTLE_SAFE_FILES", "QUEENSIDE_CASTLE_SAFE_FILES", "Color::enpassant_capture_rank", "Color::enpassant_pawn_rank"],
    contract="every castling / promotion / double-step / adjacency constant equals its definition in terms of rank and file sets")
@@ -460,6 +467,8 @@ for st in ("nocheck", "check"):
 ob("C01.king.castle", ["C01"], "chess-movegen", _PC + "c01_king_castle", kind="complete", flags="func", timeout=2400, mem_gb=8, stubs=["chess_lookup::king_moves", "Board::is_legal_king_position -> contract stub weakened to the four consulted squares (C01.king_position)"],
    functions=["King::king_legals::<NO_CHECK> (castling part)"],
    contract="{one king each, <=16, rights consistent, kings not adjacent, not in check} both colours, all 16 rights values: castling move generated iff legal: right present, squares between king and rook empty, king square / transit square / destination not attacked")
+ob("C01.dispatch.lemma", ["C01"], "chess-movegen", _PC + "c01_double_check_lemma", kind="complete", flags="func", timeout=2400, mem_gb=5, part=(3, 4),
+   functions=["(spec only) legality in double check"], contract="spec-only lemma: with >= 2 checkers no move of a piece other than the king is legal")
 ob("C01.check_mask", ["C01", "C07"], "chess-movegen", _PC + "c01_check_mask", kind="complete", flags="func", timeout=2400, mem_gb=6, stubs=["chess_lookup::between"],
    functions=["check_mask"], contract="check_mask::<true> == between(king, checker) + checker with exactly one checker (its assert_eq! holds); check_mask::<false> == everything")
 ob("C01.is_legal", ["C01", "C02"], "chess-movegen", "iter::kani_verif_c10::c01_is_legal", kind="bounded", bound="move list of <= 2 entries x <= 3 destinations (the `any` loop)", flags="full", timeout=1500, mem_gb=6,
@@ -471,8 +480,8 @@ ob("C01.cover", "C01", "chess-movegen", _PC + "c01_cover", kind="cover", flags="
    contract="vacuity guard: under the invariant there are positions with a legal move of a pinned rook, a legal en-passant capture, legal castling, and a pinned knight")
 PROPERTY_META["C01"] = dict(
     level="proof",
-    explanation="Each per-type generator function of the real code is verified against make-move-and-test-the-king legality (independent spec, validated on published perft counts) for ALL boards satisfying the representation invariant, both colours, any mask, as a foreach-loop proof: loop body for an ARBITRARY member (one-shot iterator; complete), loop ranges / skipped members have no legal move (complete), BitBoardIter contract (C18); king moves and castling against the attacked-square contract of is_legal_king_position; check_mask; is_legal against the iterator (bounded list). NOT machine-checked: the 20-line dispatch in collect_moves (which per-type functions run for 0 / 1 / >= 2 checkers) and the composition of loop bodies into whole loops.",
-    assumptions=["dispatch in Board::collect_moves (0 checkers: all six NO_CHECK; 1 checker: five IN_CHECK + king; >= 2: king only) is covered by inspection only; with >= 2 checkers only king moves are legal (standard)",
+    explanation="Each per-type generator function of the real code is verified against make-move-and-test-the-king legality (independent spec, validated on published perft counts) for ALL boards satisfying the representation invariant, both colours, any mask, as a foreach-loop proof: loop body for an ARBITRARY member (one-shot iterator; complete), loop ranges / skipped members have no legal move (complete), BitBoardIter contract (C18); king moves and castling against the attacked-square contract of is_legal_king_position; check_mask; is_legal against the iterator (bounded list). Dispatch in collect_moves (which per-type functions run for 0 / 1 / >= 2 checkers, with which IS_IN_CHECK constant) is by inspection of 20 lines — an attempt to run the real collect_moves restricted to double check exhausted memory (all twelve generator instances are symbolically executed); the supporting spec lemma 'in double check only king moves are legal' is machine-checked (C01.dispatch.lemma). The composition of loop bodies into whole loops is a meta-argument.",
+    assumptions=["dispatch in Board::collect_moves for 0 / 1 checkers (all six NO_CHECK; five IN_CHECK + king) is covered by inspection only (Kani cannot stub trait methods with const generics to observe the calls)",
                  "foreach-loop composition is a meta-argument; real-iterator skeletons are checked in the thorough tier with <= 2 pieces (bounded)",
                  "chess_lookup accessors replaced by their contracts (C08.*, C09.*)",
                  "representation invariant is established/preserved by C06.*/C02.*/C03.* (induction over histories: meta-argument)"],
@@ -561,5 +570,5 @@ _C01_PART = {"knight.nocheck.body": 0, "bishop.check.body": 0, "pawn.skipped": 0
 for _o in OBLIGATIONS:
     if _o["name"].startswith("C01.") and _o["name"][4:] in _C01_PART:
         _o["part"] = (_C01_PART[_o["name"][4:]], 4)
-    elif _o["name"].startswith("C01.") and "part" in _o:
+    elif _o["name"].startswith("C01.") and "part" in _o and not _o["name"].startswith("C01.dispatch"):
         del _o["part"]
